@@ -35,29 +35,111 @@ From Sigtools.Proofs.Sweep Require MT10.
 From Sigtools.Proofs.Sweep Require MT11.
 From Sigtools.Proofs.Sweep Require MT12.
 
+Lemma pairs_sweep_chunks (l : list (list param)) n :
+  (forall i, In i (seq 0 n) -> pairs_sweep (chunk PCH i l) = true) ->
+  pairs_sweep (flat_map (fun i => chunk PCH i l) (seq 0 n)) = true.
+Proof.
+  intros HH. unfold pairs_sweep. rewrite forallb_flat_map.
+  apply forallb_forall. intros i Hi. apply (HH i Hi).
+Qed.
+
+Lemma triples_sweep_chunks (l : list (list param)) n :
+  (forall i, In i (seq 0 n) -> triples_sweep (chunk TCH i l) = true) ->
+  triples_sweep (flat_map (fun i => chunk TCH i l) (seq 0 n)) = true.
+Proof.
+  intros HH. unfold triples_sweep. rewrite forallb_flat_map.
+  apply forallb_forall. intros i Hi. apply (HH i Hi).
+Qed.
+
+Lemma U2_chunks_sweep i : In i (seq 0 16) -> pairs_sweep (chunk PCH i U2ab) = true.
+Proof.
+  intros Hi. cbv [seq In] in Hi.
+  destruct Hi as [<-|Hi]; [exact MP0.mp|].
+  destruct Hi as [<-|Hi]; [exact MP1.mp|].
+  destruct Hi as [<-|Hi]; [exact MP2.mp|].
+  destruct Hi as [<-|Hi]; [exact MP3.mp|].
+  destruct Hi as [<-|Hi]; [exact MP4.mp|].
+  destruct Hi as [<-|Hi]; [exact MP5.mp|].
+  destruct Hi as [<-|Hi]; [exact MP6.mp|].
+  destruct Hi as [<-|Hi]; [exact MP7.mp|].
+  destruct Hi as [<-|Hi]; [exact MP8.mp|].
+  destruct Hi as [<-|Hi]; [exact MP9.mp|].
+  destruct Hi as [<-|Hi]; [exact MP10.mp|].
+  destruct Hi as [<-|Hi]; [exact MP11.mp|].
+  destruct Hi as [<-|Hi]; [exact MP12.mp|].
+  destruct Hi as [<-|Hi]; [exact MP13.mp|].
+  destruct Hi as [<-|Hi]; [exact MP14.mp|].
+  destruct Hi as [<-|Hi]; [exact MP15.mp|].
+  destruct Hi.
+Qed.
+
+Lemma U1_chunks_sweep i : In i (seq 0 13) -> triples_sweep (chunk TCH i U1ab) = true.
+Proof.
+  intros Hi. cbv [seq In] in Hi.
+  destruct Hi as [<-|Hi]; [exact MT0.mt|].
+  destruct Hi as [<-|Hi]; [exact MT1.mt|].
+  destruct Hi as [<-|Hi]; [exact MT2.mt|].
+  destruct Hi as [<-|Hi]; [exact MT3.mt|].
+  destruct Hi as [<-|Hi]; [exact MT4.mt|].
+  destruct Hi as [<-|Hi]; [exact MT5.mt|].
+  destruct Hi as [<-|Hi]; [exact MT6.mt|].
+  destruct Hi as [<-|Hi]; [exact MT7.mt|].
+  destruct Hi as [<-|Hi]; [exact MT8.mt|].
+  destruct Hi as [<-|Hi]; [exact MT9.mt|].
+  destruct Hi as [<-|Hi]; [exact MT10.mt|].
+  destruct Hi as [<-|Hi]; [exact MT11.mt|].
+  destruct Hi as [<-|Hi]; [exact MT12.mt|].
+  destruct Hi.
+Qed.
+
 Lemma U2_pairs_sweep : pairs_sweep U2ab = true.
 Proof.
-  rewrite <- U2ab_chunks. unfold pairs_sweep. rewrite forallb_flat_map.
-  apply forallb_forall. intros i Hi. change (pairs_sweep (chunk PCH i U2ab) = true).
-  simpl in Hi.
-  repeat (destruct Hi as [<-|Hi]; [first [exact MP0.mp | exact MP1.mp | exact MP2.mp | exact MP3.mp | exact MP4.mp | exact MP5.mp | exact MP6.mp | exact MP7.mp | exact MP8.mp | exact MP9.mp | exact MP10.mp | exact MP11.mp | exact MP12.mp | exact MP13.mp | exact MP14.mp | exact MP15.mp]|]).
-  destruct Hi.
+  exact (eq_ind _ (fun l => pairs_sweep l = true)
+                (pairs_sweep_chunks U2ab 16 U2_chunks_sweep) _ U2ab_chunks).
 Qed.
 
 Lemma U1_triples_sweep : triples_sweep U1ab = true.
 Proof.
-  rewrite <- U1ab_chunks. unfold triples_sweep. rewrite forallb_flat_map.
-  apply forallb_forall. intros i Hi. change (triples_sweep (chunk TCH i U1ab) = true).
-  simpl in Hi.
-  repeat (destruct Hi as [<-|Hi]; [first [exact MT0.mt | exact MT1.mt | exact MT2.mt | exact MT3.mt | exact MT4.mt | exact MT5.mt | exact MT6.mt | exact MT7.mt | exact MT8.mt | exact MT9.mt | exact MT10.mt | exact MT11.mt | exact MT12.mt]|]).
-  destruct Hi.
+  exact (eq_ind _ (fun l => triples_sweep l = true)
+                (triples_sweep_chunks U1ab 13 U1_chunks_sweep) _ U1ab_chunks).
+Qed.
+
+Lemma forallb2_in {A} (f : A -> A -> bool) la lb :
+  forallb (fun a => forallb (fun b => f a b) lb) la = true ->
+  forall a b, In a la -> In b lb -> f a b = true.
+Proof.
+  intros H a b Ha Hb. rewrite forallb_forall in H. specialize (H a Ha). cbv beta in H.
+  rewrite forallb_forall in H. exact (H b Hb).
+Qed.
+
+Lemma forallb3_in {A} (f : A -> A -> A -> bool) la lb lc :
+  forallb (fun a => forallb (fun b => forallb (fun c => f a b c) lc) lb) la = true ->
+  forall a b c, In a la -> In b lb -> In c lc -> f a b c = true.
+Proof.
+  intros H a b c Ha Hb Hc. rewrite forallb_forall in H. specialize (H a Ha). cbv beta in H.
+  rewrite forallb_forall in H. specialize (H b Hb). cbv beta in H.
+  rewrite forallb_forall in H. exact (H c Hc).
+Qed.
+
+Lemma pairs_sweep_in l : pairs_sweep l = true ->
+  forall a b, In a l -> In b U2ab -> pair_check a b = true.
+Proof.
+  unfold pairs_sweep. intros H a b Ha Hb.
+  exact (forallb2_in pair_check l U2ab H a b Ha Hb).
+Qed.
+
+Lemma triples_sweep_in l : triples_sweep l = true ->
+  forall a b c, In a l -> In b U1ab -> In c U1ab -> merge_sound_check [a; b; c] = true.
+Proof.
+  unfold triples_sweep. intros H a b c Ha Hb Hc.
+  exact (forallb3_in (fun a b c => merge_sound_check [a; b; c]) l U1ab U1ab H a b c Ha Hb Hc).
 Qed.
 
 Lemma pair_check_all a b : In a U2ab -> In b U2ab -> pair_check a b = true.
-Proof.
-  intros Ha Hb. pose proof U2_pairs_sweep as H. unfold pairs_sweep in H.
-  rewrite forallb_forall in H. specialize (H a Ha). rewrite forallb_forall in H. exact (H b Hb).
-Qed.
+Proof. intros Ha Hb. exact (pairs_sweep_in U2ab U2_pairs_sweep a b Ha Hb). Qed.
+
+Lemma triple_check_all a b c : In a U1ab -> In b U1ab -> In c U1ab -> merge_sound_check [a; b; c] = true.
+Proof. intros Ha Hb Hc. exact (triples_sweep_in U1ab U1_triples_sweep a b c Ha Hb Hc). Qed.
 
 Lemma merge_sound_check_spec ss r :
   merge_sound_check ss = true -> merge (map mk ss) = Ok r ->
@@ -103,10 +185,7 @@ Theorem merge_sound_triples_U1 a b c0 r :
              forallb (fun s => accepts s c) [a; b; c0] = true).
 Proof.
   intros Ha Hb Hc E.
-  pose proof U1_triples_sweep as H. unfold triples_sweep in H. rewrite forallb_forall in H.
-  specialize (H a Ha). rewrite forallb_forall in H. specialize (H b Hb).
-  rewrite forallb_forall in H. specialize (H c0 Hc).
-  exact (merge_sound_check_spec [a; b; c0] r H E).
+  exact (merge_sound_check_spec [a; b; c0] r (triple_check_all a b c0 Ha Hb Hc) E).
 Qed.
 
 (* C09, bounded: exactness for name-aligned role-consistent pairs of U(2,{a,b}) *)
